@@ -57,6 +57,10 @@ def decompress():
 
             def on_next(i):
                 try:
+                    if decompressor.eof and len(i) == 0:
+                        # the frame is complete: an empty chunk carries nothing
+                        # (zstandard refuses any call after the end of a frame)
+                        return
                     data = decompressor.decompress(i)
                     observer.on_next(data)
                 except Exception as e:
